@@ -31,6 +31,10 @@ T = {
  "C08_d": ("C08","internal/filefmt/coff.go CoffFormat.Write","string table size field rounded up to an even number although no pad byte is written","WCOFF whose string table has odd length (one long name of even length)"),
  "C18_a": ("C18","pkg/ng_operand/operand_impl.go ImmediateValueFitsInSigned8Bits","lower bound -128 excluded: ADD AX,-128 uses the imm16 form","ALU instruction with immediate exactly -128"),
  "C19_a": ("C19","internal/frontend/frontend.go Exec","O_TRUNC dropped from the OpenFile flags: a shorter output leaves the tail of an older file","re-assembling to an existing, longer output file"),
+ "C01_e": ("C01","internal/codegen/x86gen_pushpop.go handlePUSH","imm8 range check widened to -128..0xFF: PUSH 200 takes the short form 6A C8, which pushes the sign-extended value -56 (and is one byte shorter)","PUSH with an immediate in 128..255"),
+ "C01_f": ("C01","pkg/asmdb/instruction_table_fallback.go addMovFallbackEncodings","the hand-written row MOV r32,CRn (0F 20 /r) has its Reg/Rm operand indices swapped: MOV ECX,CR0 assembles to 0F 20 C8 (= MOV EAX,CR1)","MOV from a control register where register number and CR number differ"),
+ "C03_c": ("C03","pkg/ng_operand/operand_impl.go CalcOffsetByteSize","the special case for a bare [BP] in 16-bit mode (mandatory disp8 = 0) is removed: pass 1 sizes MOV AX,[BP] as 2 bytes while 3 are emitted, every later label is 1 too low","16-bit code with [BP] without displacement followed by a referenced label"),
+ "C07_d": ("C07","internal/codegen/x86gen_lgdt.go handleLGDT","an LGDT operand that is not in the symbol table falls back to strconv.Atoi with the error ignored: LGDT [typo] assembles to LGDT [0] with no diagnostic","LGDT with an undefined label"),
 }
 for sid,(prop,where,what,needs) in T.items():
     d=f'/verif/seeded/{sid}'
